@@ -2,24 +2,7 @@ import sys
 import z3
 from mmverif import prove
 from mmverif.engine import driver, symexec
-prove.load_sidecar('tbrmatchedmarkets')
-orig = symexec.Ctx.branch
-def branch(self, cond):
-  try:
-    return orig(self, cond)
-  except symexec.PathEnd as e:
-    if e.reason == 'infeasible':
-      s = z3.Solver(); s.set('timeout', 20000)
-      ps = []
-      for i, t in enumerate(self.pc):
-        p = z3.Bool('p%d' % i); ps.append(p); s.add(z3.Implies(p, t))
-      r = s.check(ps)
-      print('pc check', r)
-      if r == z3.unsat:
-        core = s.unsat_core()
-        for c in core:
-          i = int(str(c)[1:]); print('CORE', i, str(self.pc[i])[:700]); print()
-    raise
-symexec.Ctx.branch = branch
-u = driver.verify_function('tbrmatchedmarkets', sys.argv[1])
-print(u.paths, u.path_outcomes, u.vacuous)
+prove.load_sidecar(sys.argv[1])
+u = driver.verify_function(sys.argv[1], sys.argv[2])
+print(u.paths, u.vacuous)
+for o in u.path_outcomes: print(' ', o)
